@@ -175,6 +175,57 @@ pub trait Prop: Sync {
     type Case: Debug + Clone + Serialize + DeserializeOwned + Send + 'static;
     fn strategy(&self, tier: Tier) -> BoxedStrategy<Self::Case>;
     fn check(&self, case: &Self::Case, ctx: &mut Ctx) -> CheckResult;
+    /// the raw input bytes of a case, if it has any: after proptest's own shrinking the engine minimises them
+    /// further byte-wise (delta debugging), keeping the failure signature
+    fn input_bytes<'a>(&self, _case: &'a mut Self::Case) -> Option<&'a mut Vec<u8>> {
+        None
+    }
+}
+
+/// ddmin over the input bytes of a failing case: remove windows of decreasing size while the check keeps failing
+/// with the same signature. Bounded work; deterministic.
+pub fn minimise_bytes<P: Prop>(p: &P, case: &mut P::Case, sig: &str) {
+    let mut budget = 4000usize;
+    let fails = |c: &P::Case, budget: &mut usize| -> bool {
+        if *budget == 0 {
+            return false;
+        }
+        *budget -= 1;
+        let mut scratch = Ctx::new(false);
+        scratch.counting = false;
+        matches!(guarded(|| p.check(c, &mut scratch)), Err(f) if f.sig == sig)
+    };
+    let len0 = match p.input_bytes(case) {
+        Some(b) => b.len(),
+        None => return,
+    };
+    let mut window = (len0 / 2).max(1);
+    loop {
+        let mut i = 0;
+        loop {
+            let cur: Vec<u8> = p.input_bytes(case).unwrap().clone();
+            if i >= cur.len() {
+                break;
+            }
+            let end = (i + window).min(cur.len());
+            let mut cand = cur.clone();
+            cand.drain(i..end);
+            *p.input_bytes(case).unwrap() = cand;
+            if fails(case, &mut budget) {
+                // keep the removal, stay at the same index
+            } else {
+                *p.input_bytes(case).unwrap() = cur;
+                i += window;
+            }
+            if budget == 0 {
+                return;
+            }
+        }
+        if window == 1 {
+            break;
+        }
+        window = (window / 2).max(1);
+    }
 }
 
 // ---------------------------------------------------------------------------------------------
@@ -482,14 +533,22 @@ impl Run {
                             let mut ctx = ctx.into_inner();
                             let fail = match res {
                                 Ok(()) => None,
-                                Err(TestError::Fail(_, case)) => {
+                                Err(TestError::Fail(_, mut case)) => {
                                     ctx.counting = false;
                                     let mut scratch = Ctx::new(false);
                                     scratch.counting = false;
-                                    let f = match guarded(|| p.check(&case, &mut scratch)) {
+                                    let mut f = match guarded(|| p.check(&case, &mut scratch)) {
                                         Err(f) => f,
                                         Ok(()) => Failure::new("non-reproducible", "minimal case passed when re-run (flaky oracle?)"),
                                     };
+                                    if f.sig != "non-reproducible" {
+                                        minimise_bytes(p, &mut case, &f.sig);
+                                        if let Err(f2) = guarded(|| p.check(&case, &mut scratch)) {
+                                            if f2.sig == f.sig {
+                                                f = f2;
+                                            }
+                                        }
+                                    }
                                     Some((case, f))
                                 }
                                 Err(TestError::Abort(r)) => {
